@@ -8,6 +8,7 @@
 mod rng;
 mod util;
 mod areas;
+mod sched;
 
 use rng::Rng;
 use std::io::Write;
@@ -15,7 +16,9 @@ use util::{json_str, Stats};
 
 pub struct Failure { pub class: String, pub detail: String }
 
-pub struct ExecOut { pub outs: Vec<String>, pub fails: Vec<Failure> }
+pub struct ExecOut { pub outs: Vec<String>, pub fails: Vec<Failure>,
+    /// request lines for the Lean model when they differ from the generating request (concurrent areas: + the observed trace)
+    pub model_lines: Option<Vec<String>> }
 
 pub trait Area {
     /// fixed cases that always run first (defect witnesses, minimised past failures)
@@ -34,7 +37,7 @@ fn exec_caught(area: &dyn Area, lines: &[String], stats: &mut Stats) -> ExecOut 
         Err(e) => {
             let msg = if let Some(s) = e.downcast_ref::<String>() { s.clone() } else if let Some(s) = e.downcast_ref::<&str>() { s.to_string() } else { "?".into() };
             ExecOut { outs: lines.iter().map(|_| "harness-panic".to_string()).collect(),
-                      fails: vec![Failure { class: "harness-panic".into(), detail: msg }] }
+                      fails: vec![Failure { class: "harness-panic".into(), detail: msg }], model_lines: None }
         }
     }
 }
@@ -72,7 +75,8 @@ fn main() {
                 let o = exec_caught(area.as_ref(), &lines, stats);
                 assert_eq!(o.outs.len(), lines.len(), "area returned wrong number of outputs");
                 writeln!(req, "case").unwrap(); writeln!(imp, "case").unwrap();
-                for (l, r) in lines.iter().zip(o.outs.iter()) { writeln!(req, "{}", l).unwrap(); writeln!(imp, "{}", r).unwrap(); }
+                let ml = o.model_lines.clone().unwrap_or_else(|| lines.clone());
+                for (l, r) in ml.iter().zip(o.outs.iter()) { writeln!(req, "{}", l).unwrap(); writeln!(imp, "{}", r).unwrap(); }
                 for f in &o.fails {
                     nfail += 1;
                     writeln!(orc, "{{\"case\":{},\"corpus\":{},\"class\":{},\"detail\":{},\"lines\":[{}]}}", ncases, from_corpus, json_str(&f.class), json_str(&f.detail),
